@@ -1,9 +1,14 @@
 """C10 - service scan and identifier scan: the real ServicesScanner.main() / ScanIdentifiers.main() run in-process on
-a real ECU client over an in-process ECU (table-driven ECUs and the real RandomUDSServer), under virtual time.
-The recorded exchange trace (request PDU, outcome class) is replayed through the Lean model (Model/Scans.lean) on a
-scripted ECU: the model must issue the same requests in the same order and report the same result.  Independently,
-the property's own statement is evaluated on the ECU's ground truth (spec verdict)."""
+a real ECU client over an in-process wire-level ECU (table-driven ECUs with optional session drops, refused re-entry,
+ResponsePending / busyRepeatRequest frames, reset and boot behaviour; 'wild' ECUs; the real RandomUDSServer), under
+virtual time.  The per-transmission answer script (what the ECU put on the wire for every single transmission, final
+message classified by the real client) is replayed through the Lean model (Model/Scans.lean: scanner on top of the
+client's retry / ResponsePending loop on top of a scripted wire ECU): the model must put the same transmissions on the
+wire in the same order, consume exactly the same answers and report the same result.  Independently, the property's own
+statement is evaluated on the ECU's ground truth (spec verdict), and metamorphic pairs (reset on/off, check-session
+on/off, ResponsePending on/off) are compared."""
 import asyncio
+import re
 
 from common import setup_repo_import
 from vloop import Stall, vrun
@@ -13,24 +18,36 @@ GENS = ["c10_codes"]
 PROOF = "Gallia.Proofs.C10"
 DRIVER = "c10"
 ASSUMPTIONS = [
-    "configuration domain: --reset not given, no database, no power supply, session ids 1..0x7F, identifiers within 16 bit",
-    "an exchange is represented by its outcome class (positive PDU / NRC / MissingResponse / IllegalResponse) as produced by the real UDSClient",
-    "wait_for_ecu's 10 s limit is modelled as at most 10 pings; runs with >= 9 consecutive silent pings are not generated",
+    "configuration domain: no database, no power supply, session ids / reset levels 1..0x7F, identifiers within 16 bit, session lists without repetition",
+    "the final message of a transmission is represented by its class (positive PDU / NRC / silence / unparsable) as decided by the real UDSClient's matcher (C03); the retry loop, busyRepeatRequest and the ResponsePending loop on top of it are modelled (clientEcu) and tied at the level of single transmissions",
+    "max_retry per call site is given to the model as a function of the request bytes (svcRetry / idRetry); hook requests that coincide with a probe PDU are not generated",
+    "wait_for_ecu's 10 s limit is modelled in half seconds (sleep 0.5 s, ping timeout 0.5 s; boundary ties go to the cancellation, as asyncio does); a ping that is answered with ResponsePending frames followed by silence is not generated",
+    "set_session_pre / set_session_post hooks of OEM subclasses are represented by the list of requests they send (send_raw, reply ignored, client exceptions propagate); the base-class hooks send nothing",
+    "connection loss (ConnectionError) during a scan is outside (C08)",
 ]
 
 NEG_MEANINGFUL = [0x22, 0x33, 0x31, 0x12, 0x7E, 0x10, 0x24, 0x72]
 SNS, SNSIAS, IMLOIF = 0x11, 0x7F, 0x13
+HOOK_PDUS = [b"\x85\x02", b"\x85\x01", b"\x28\x01\x01", b"\x28\x00\x01", b"\x31\x01\xff\x00\x01"]
 
 
 class TableEcu:
-    """session-determined ECU: answers depend on (current session, pdu) only; ISO default rule for unsupported services"""
+    """session-determined ECU: answers depend on (current session, pdu) only; ISO default rule for unsupported services.
+    Optional behaviour on top (all off by default): silent session drops (after `drop_after` requests in a non-default
+    session / after a request of a service id in `drop_sids`), refused re-entry after a drop, ResponsePending frames in
+    front of replies, busyRepeatRequest, reset variants and a boot phase after a reset during which pings get no / an
+    unparsable answer.  Every request is logged with the session it was received in."""
 
-    def __init__(self, rng, wild=False, n_sessions=None):
+    def __init__(self, rng, wild=False, n_sessions=None, flat=False):
         self.rng = rng
         self.wild = wild
         k = n_sessions if n_sessions is not None else rng.randint(0, 3)
         self.sessions = [1] + sorted(rng.sample(range(2, 0x7F), k))
-        self.trans = {s: {1} | {t for t in self.sessions if rng.random() < 0.6} for s in self.sessions}
+        if flat:
+            self.trans = {s: set(self.sessions) for s in self.sessions}
+        else:
+            self.trans = {s: {1} | {t for t in self.sessions if rng.random() < 0.6} for s in self.sessions}
+        self.flat = flat
         self.svc = {}
         for s in self.sessions:
             d = {}
@@ -49,6 +66,28 @@ class TableEcu:
                         for sf in (0, 1, 2, 3) for _ in range(rng.randint(0, 14))} for s in self.sessions}
         self.session = 1
         self.consec_silent = 0
+        # behaviour switches
+        self.drop_after = None
+        self.drop_sids = set()
+        self.refuse = 0            # how many re-entry attempts into a dropped session are refused (10**9 = always)
+        self.dropped = set()
+        self.since = 0
+        self.pending = 0.0         # probability that a reply is preceded by ResponsePending frames
+        self.pending_ks = [1, 1, 2, 5]
+        self.busy = 0.0            # probability of busyRepeatRequest instead of the reply
+        self.reset_mode = "ok"     # ok | neg | silent | garbage | stay
+        self.reset_levels = {1}
+        self.boot = []             # what the ECU does with the first requests after a positive reset: 't' deaf | 'i' garbage
+        self.booting = []
+        self.fake_reentry = False  # a refused re-entry is answered positively although the session is not entered
+        self.f186_then = None      # (n, mode): after n answered read-backs the read-back behaves like `mode`
+        self.f186_nondefault = None  # read-back behaviour outside the default session (None: as in the default session)
+        self.readbacks = 0
+        self.log = []              # (session at receipt, pdu, final reply)
+        self.silent_pings = 0
+
+    def stable(self):
+        return self.drop_after is None and not self.drop_sids
 
     def supports(self, session, sid):
         if sid in (0x10, 0x11, 0x3E):
@@ -62,18 +101,48 @@ class TableEcu:
         if sid == 0x10 and len(pdu) == 2:
             t = pdu[1] & 0x7F
             if t in self.trans.get(s, ()) and t in self.sessions:
+                if t in self.dropped and self.refuse > 0:
+                    self.refuse -= 1
+                    if self.fake_reentry:
+                        return bytes([0x50, t, 0x00, 0x32, 0x01, 0xF4])
+                    return bytes([0x7F, 0x10, 0x22])
                 self.session = t
+                self.since = 0
+                self.dropped.discard(t)
                 return bytes([0x50, t, 0x00, 0x32, 0x01, 0xF4])
             return bytes([0x7F, 0x10, 0x12])
         if sid == 0x11 and len(pdu) == 2:
-            if pdu[1] == 0x01:
-                self.session = 1
-                return bytes([0x51, 0x01])
+            if pdu[1] in self.reset_levels:
+                if self.reset_mode == "neg":
+                    return bytes([0x7F, 0x11, 0x22])
+                if self.reset_mode == "silent":
+                    self.session = 1
+                    return None
+                if self.reset_mode == "garbage":
+                    return bytes([0x7F, 0x12, 0x31])
+                if self.reset_mode != "stay":
+                    self.session = 1
+                    self.dropped.clear()
+                self.booting = list(self.boot)
+                return bytes([0x51, pdu[1]])
             return bytes([0x7F, 0x11, 0x12])
         if sid in (0x10, 0x11):
             return bytes([0x7F, sid, 0x13 if len(pdu) != 2 else 0x12])
         if sid == 0x3E:
             return bytes([0x7E, 0x00]) if pdu == b"\x3e\x00" else bytes([0x7F, 0x3E, 0x13])
+        if pdu == b"\x22\xf1\x86":
+            self.readbacks += 1
+            if self.f186_then is not None and self.readbacks > self.f186_then[0]:
+                self.f186 = self.f186_then[1]
+            mode = self.f186_nondefault if (s != 1 and self.f186_nondefault) else self.f186
+            if mode == "garbage":
+                return bytes([0x7F, 0x23, 0x31])
+            if mode == "nrc22":
+                return bytes([0x7F, 0x22, 0x22])
+            if mode == "silent":
+                return None
+            if mode == "nrc31":
+                return bytes([0x7F, 0x22, 0x31])
         if pdu == b"\x22\xf1\x86" and self.supports(s, 0x22) or pdu == b"\x22\xf1\x86" and self.f186 != "nrc11":
             if self.f186 == "ok":
                 return bytes([0x62, 0xF1, 0x86, s])
@@ -85,7 +154,7 @@ class TableEcu:
                 return None
         if pdu == b"\x22\xf1\x86" and self.f186 == "nrc11":
             return bytes([0x7F, 0x22, 0x11])
-        return None if False else self._svc_answer(pdu)
+        return self._svc_answer(pdu)
 
     def _svc_answer(self, pdu):
         sid = pdu[0]
@@ -128,7 +197,7 @@ class TableEcu:
             return bytes([sid + 0x40, 0x00])
         return bytes([0x7F, sid, kind])
 
-    def __call__(self, pdu):
+    def _respond(self, pdu):
         if self.wild:
             r = self.rng.random()
             if r < 0.06 and self.consec_silent < 3:
@@ -139,7 +208,35 @@ class TableEcu:
                 return bytes([0x7F, (pdu[0] + 1) & 0xFF, 0x31])  # foreign negative reply -> mismatch
             if r < 0.16:
                 return bytes([0x7F, pdu[0], self.rng.choice([0x11, 0x7F, 0x13, 0x22, 0x31, 0x12, 0x33])])
+        if self.busy and self.rng.random() < self.busy:
+            return bytes([0x7F, pdu[0], 0x21])
         return self.answer(pdu)
+
+    def __call__(self, pdu):
+        before = self.session
+        if self.booting:
+            a = self.booting.pop(0)
+            r = None if a == "t" else bytes([0x7F, (pdu[0] + 1) & 0xFF, 0x31])
+            self.log.append((before, pdu, r))
+            return r
+        r = self._respond(pdu)
+        self.log.append((before, pdu, r))
+        if pdu == b"\x3e\x00":
+            self.silent_pings = self.silent_pings + 1 if r is None else 0
+        # silent session drops (take effect after the reply)
+        if self.session != 1 and not (pdu[0] == 0x10 and len(pdu) == 2):
+            drop = pdu[0] in self.drop_sids
+            if self.drop_after is not None:
+                self.since += 1
+                drop = drop or self.since >= self.drop_after
+            if drop:
+                self.dropped.add(self.session)
+                self.session = 1
+                self.since = 0
+        if self.pending and self.rng.random() < self.pending and not (pdu == b"\x3e\x00" and r is None):
+            k = self.rng.choice(self.pending_ks)
+            return [bytes([0x7F, pdu[0], 0x78])] * k + [r]
+        return r
 
 
 def _r1(txt):
@@ -220,15 +317,57 @@ def _fmt_sessions(s):
     return ",".join(map(str, s)) if s else "-"
 
 
-def _run_scanner(cls, cfg, ecufn, capture_results=None):
-    """returns dict(outcome, result, trace, wire)"""
+def _fmt_hooks(hooks):
+    if not hooks:
+        return "-"
+    def hl(v):
+        return ",".join(p.hex() for p in v) if v else "-"
+    return ";".join(f"{k}/{hl(pre)}/{hl(post)}" for k, (pre, post) in sorted(hooks.items()))
+
+
+def _mk_ecu_class():
     from gallia.services.uds.ecu import ECU
-    from lib.fakeecu import FnTransport, record_exchanges
+
+    class HookedECU(ECU):
+        """an OEM subclass whose session hooks send requests (reply ignored, client exceptions propagate)"""
+        hook_table = {}
+
+        async def set_session_pre(self, level, config=None):
+            for p in self.hook_table.get(level, ((), ()))[0]:
+                await self.send_raw(p)
+            return True
+
+        async def set_session_post(self, level, config=None):
+            for p in self.hook_table.get(level, ((), ()))[1]:
+                await self.send_raw(p)
+            return True
+
+    return HookedECU
+
+
+_ABORT_RE = re.compile(r"Aborting scan on session (0x[0-9a-fA-F]+|\d+); current SID was (0x[0-9a-fA-F]+|\d+)")
+
+
+def _run_scanner(cls, cfg, ecufn, hooks=None, max_retry=3):
+    """returns dict(outcome, scanner, exchanges, wire, tokens, problems, aborts)"""
+    from lib.wireecu import WireTransport, record_wire, wire_tokens
+    import gallia.commands.scan.uds.services as svcmod
 
     sc = cls(cfg)
-    t = FnTransport(ecufn)
-    sc.ecu = ECU(t, timeout=2, max_retry=3)
-    trace = record_exchanges(sc.ecu)
+    t = WireTransport(ecufn)
+    ecu_cls = _mk_ecu_class()
+    sc.ecu = ecu_cls(t, timeout=2, max_retry=max_retry)
+    sc.ecu.hook_table = hooks or {}
+    exchanges = record_wire(sc.ecu, t)
+    aborts = []
+    old_error = svcmod.logger.error
+
+    def on_error(msg, *a, **k):
+        m = _ABORT_RE.search(str(msg))
+        if m:
+            aborts.append((int(m.group(1), 0), int(m.group(2), 0)))
+
+    svcmod.logger.error = on_error
 
     async def main():
         try:
@@ -248,17 +387,78 @@ def _run_scanner(cls, cfg, ecufn, capture_results=None):
 
     try:
         outcome, _vt = vrun(main(), horizon=1e7)
-    except Stall as e:
+    except Stall:
         outcome = "stall"
-    return {"outcome": outcome, "scanner": sc, "trace": trace, "wire": t.wire}
+    finally:
+        svcmod.logger.error = old_error
+    toks, problems = wire_tokens(exchanges, t)
+    return {"outcome": outcome, "scanner": sc, "exchanges": exchanges, "wire": t.wire, "tokens": toks, "problems": problems,
+            "aborts": aborts, "trace": [(ex["pdu"], ex["tok"]) for ex in exchanges]}
 
 
-def _tokens(trace):
-    return " ".join(tok for _, tok in trace)
+def _tokens(r):
+    return " ".join(r["tokens"])
 
 
-def _reqs(trace):
-    return ",".join(p.hex() for p, _ in trace) if trace else "-"
+def _reqs(wire):
+    return ",".join(p.hex() for p in wire) if wire else "-"
+
+
+def _behaviour(rng, ecu, mode):
+    """switch on one of the behaviours on top of the table; returns its label"""
+    if mode == "plain":
+        return "plain"
+    if mode == "drop-sid":
+        cand = [sid for d in ecu.svc.values() for sid in d] + [rng.randrange(256) for _ in range(3)]
+        ecu.drop_sids = set(rng.sample(cand, min(len(cand), rng.randint(1, 3))))
+        if rng.random() < 0.2:
+            ecu.f186_then = (rng.randint(1, 6), rng.choice(["silent", "nrc31", "nrc22", "garbage"]))
+        return "drop-sid"
+    if mode == "drop-count":
+        ecu.drop_after = rng.choice([1, 2, 3, 7, 20, 60, 150, 400])
+        return "drop-count"
+    if mode == "refuse":
+        if rng.random() < 0.6:
+            cand = [sid for d in ecu.svc.values() for sid in d] + [rng.randrange(256) for _ in range(3)]
+            ecu.drop_sids = set(rng.sample(cand, min(len(cand), rng.randint(1, 2))))
+        else:
+            ecu.drop_after = rng.choice([1, 5, 30, 200])
+        ecu.refuse = rng.choice([1, 2, 3, 4, 5, 10 ** 9, 10 ** 9])
+        ecu.fake_reentry = rng.random() < 0.3
+        if rng.random() < 0.3:
+            ecu.f186_then = (rng.randint(1, 6), rng.choice(["silent", "nrc31", "nrc22", "garbage", "stuck1"]))
+        return "refuse"
+    if mode == "pending":
+        ecu.pending = rng.choice([0.05, 0.3, 1.0])
+        if rng.random() < 0.25:
+            ecu.pending_ks = [1, 2, 118, 119, 120, 121]
+            ecu.pending = 0.02
+        return "pending"
+    if mode == "busy":
+        ecu.busy = rng.choice([0.02, 0.1, 0.4])
+        if rng.random() < 0.5:
+            ecu.pending = rng.choice([0.2, 0.6])   # busyRepeatRequest behind ResponsePending frames is returned, not retried
+        return "busy"
+    raise ValueError(mode)
+
+
+def _reset_setup(rng, ecu):
+    """reset level and the ECU's reset / boot behaviour"""
+    level = rng.choice([1, 1, 1, 2, 3, 0x40])
+    ecu.reset_levels = {1, level} if rng.random() < 0.85 else {1}
+    ecu.reset_mode = rng.choice(["ok", "ok", "ok", "ok", "neg", "silent", "garbage", "stay"])
+    short = [[], [], ["t"], ["t"] * 3, ["i"] * 2, ["t", "i"] * 3, ["t"] * 9, ["i"] * 18, ["t"] * 8 + ["i"] * 2, ["i", "t"] * 6]
+    long = [["t"] * 10, ["t"] * 12, ["i"] * 19, ["i"] * 25, ["t"] * 8 + ["i"] * 3, ["i", "t"] * 8]
+    ecu.boot = rng.choice(short + (long if ecu.wild else []))
+    return level
+
+
+def _hooks_setup(rng, levels):
+    hooks = {}
+    for lv in levels:
+        if rng.random() < 0.6:
+            hooks[lv] = (tuple(rng.sample(HOOK_PDUS, rng.randint(0, 2))), tuple(rng.sample(HOOK_PDUS, rng.randint(0, 2))))
+    return {k: v for k, v in hooks.items() if v[0] or v[1]}
 
 
 def run(ctx):
@@ -268,26 +468,54 @@ def run(ctx):
     from gallia.commands.scan.uds.identifiers import ScanIdentifiers, ScanIdentifiersConfig
     from gallia.commands.scan.uds.services import ServicesScanner, ServicesScannerConfig
     from gallia.services.uds.core.constants import UDSIsoServices
+    import random as _random
 
     rng = ctx.rng
     ctx.rule = ("one case = (scanner kind, configuration, ECU); ECUs: random session-determined table ECUs obeying the ISO "
-                "default rule (spec verdict from their ground truth), 'wild' table ECUs with injected silence / foreign / "
+                "default rule (spec verdict from their ground truth), optionally with silent session drops / refused re-entry / "
+                "ResponsePending / busyRepeatRequest / reset and boot variants, 'wild' table ECUs with injected silence / foreign / "
                 "not-supported replies (model-vs-code only) and the real RandomUDSServer; distinct = distinct (config, "
-                "exchange trace); non-trivial = at least one service/identifier found or one session skipped/aborted")
+                "per-transmission answer script); non-trivial = at least one service/identifier found or one session skipped/aborted")
     cases = []  # (line for lean, impl summary string, info)
 
+    def svc_case(ecu, sessions, skip, check, rid, reset, hooks, label, skip_arg=None):
+        cfg = ServicesScannerConfig(target="tcp-lines://127.0.0.1:1", sessions=sessions, skip=skip if skip_arg is None else skip_arg,
+                                    check_session=check, scan_response_ids=rid, reset=reset, db=None)
+        r = _run_scanner(ServicesScanner, cfg, ecu, hooks=hooks, max_retry=rng.choice([0, 1, 3]))
+        ctx.ev()
+        head = (f"svc {_fmt_sessions(sessions)} {int(check)} {int(rid)} {_fmt_skip(skip)} "
+                f"{reset if reset is not None else 'none'} {_fmt_hooks(hooks)}")
+        impl = _svc_summary(r)
+        for p in r["problems"]:
+            ctx.disagree("svc:wire-accounting", "transmissions and exchanges of the real client do not line up: " + p,
+                         {"cfg": head}, impl=p, spec_violated=False, site="UDSClient.request_unsafe")
+        cases.append((head + " | " + _tokens(r), impl, {"kind": "svc", "cfg": head, "ecu": label, "trace_len": len(r["wire"])}))
+        ctx.nontrivial((head, _tokens(r)))
+        return r, head, impl
+
     # ------------------------------------------------------------------ service scan
-    n_svc = ctx.pick(200, 1200)
+    n_svc = ctx.pick(260, 1500)
+    modes = ["plain", "plain", "plain", "drop-sid", "drop-sid", "drop-count", "refuse", "refuse", "pending", "busy"]
+    n_forced = ctx.pick(42, 140)
     for i in range(n_svc):
-        wild = rng.random() < 0.3
-        ecu = TableEcu(rng, wild=wild)
-        use_sessions = rng.random() < 0.75
+        # the first cases force the combinations in which the session check / the reset path have work to do
+        forced = i % 7 if i < n_forced else None
+        wild = rng.random() < 0.25 and forced is None
+        ecu_seed = rng.randrange(1 << 60)
+        flat = rng.random() < 0.4 or forced is not None
+        n_sess = None if forced is None else rng.randint(2, 3)
+        ecu = TableEcu(_random.Random(ecu_seed), wild=wild, flat=flat, n_sessions=n_sess)
+        use_sessions = rng.random() < 0.8 or forced is not None
         sessions = None
         if use_sessions:
             pool = ecu.sessions + rng.sample(range(2, 0x7F), 2)
             sessions = sorted(set(rng.sample(pool, rng.randint(1, min(4, len(pool))))))
+            if forced is not None:
+                sessions = sorted(set(sessions) | set(ecu.sessions[1:]))
+            if rng.random() < 0.3:
+                rng.shuffle(sessions)
         skip = {}
-        if use_sessions and rng.random() < 0.6:
+        if use_sessions and rng.random() < 0.6 and forced is None:
             for s in rng.sample(sessions, rng.randint(1, len(sessions))):
                 if rng.random() < 0.25:
                     skip[s] = None
@@ -297,76 +525,165 @@ def run(ctx):
                     skip[s] = sorted(set(cand))
         if rng.random() < 0.15:
             skip[rng.randrange(1, 0x7F)] = [1, 2, 3]  # entry for a session that is not scanned
-        check = use_sessions and rng.random() < 0.4
+        check = use_sessions and rng.random() < 0.55
         rid = rng.random() < 0.3
-        skip_arg = skip
+        reset = None
+        if use_sessions and rng.random() < 0.45:
+            reset = _reset_setup(rng, ecu)
+        hooks = _hooks_setup(rng, sessions) if use_sessions and rng.random() < 0.3 else {}
+        mode = rng.choice(modes) if use_sessions else rng.choice(["plain", "pending", "busy"])
+        if mode == "busy" and not wild:
+            mode = "plain"   # busyRepeatRequest to a probe is not an ISO-default answer: wild ECUs only
+        if mode in ("drop-sid", "drop-count", "refuse") and ecu.f186 != "ok" and rng.random() < 0.7:
+            ecu.f186 = "ok"   # give the session check something to read
+        if forced is not None:
+            ecu.f186 = "ok"
+            check = forced in (0, 1, 2, 5, 6)
+            mode = ["refuse", "drop-sid", "refuse", "plain", "plain", "pending", "drop-sid"][forced]
+            if forced in (3, 4):
+                reset = rng.choice([1, 2])
+                ecu.reset_levels = {1, 2}
+                ecu.reset_mode = "ok" if forced == 3 else rng.choice(["silent", "neg"])
+                ecu.boot = rng.choice([["t"], ["t"] * 3, ["i"] * 2, ["t", "i"]]) if forced == 3 else []
+        label = _behaviour(rng, ecu, mode)
+        if forced == 6:
+            # the read-back works in the default session only: the exception paths inside the re-entry loop
+            ecu.f186_nondefault = rng.choice(["silent", "nrc31", "nrc22", "garbage"])
+        if forced in (0, 1, 2, 6):
+            # the session is lost early, by a probe: low service ids as triggers, no request counter
+            ecu.drop_after = None
+            ecu.drop_sids = set(rng.sample(range(0x00, 0x20), rng.randint(1, 2)))
+            if forced == 0:
+                ecu.refuse, ecu.fake_reentry = rng.choice([3, 40, 10 ** 9, 10 ** 9]), True
+            if forced == 2:
+                ecu.refuse, ecu.fake_reentry = rng.choice([4, 5, 10 ** 9]), False
+        skip_arg = None
         if skip and rng.random() < 0.7:
             # as on the command line: text through the real Ranges2D field type; what it denotes is the oracle's map
             skip_arg = _skip_tokens(rng, skip)
             skip = _oracle_2d(skip_arg)
             ctx.kind("skip:as-text")
-        cfg = ServicesScannerConfig(target="tcp-lines://127.0.0.1:1", sessions=sessions, skip=skip_arg,
-                                    check_session=check, scan_response_ids=rid, db=None)
-        r = _run_scanner(ServicesScanner, cfg, ecu)
+        r, head, impl = svc_case(ecu, sessions, skip, check, rid, reset, hooks, ("wild" if wild else "table") + ":" + label, skip_arg)
         sc = r["scanner"]
-        ctx.ev()
-        ctx.kind("svc:" + ("wild" if wild else "conformant") + (":sessions" if use_sessions else ":current") + (":check" if check else ""))
-        head = f"svc {_fmt_sessions(sessions)} {int(check)} {int(rid)} {_fmt_skip(skip)}"
-        impl = _svc_summary(r)
-        cases.append((head + " | " + _tokens(r["trace"]), impl,
-                      {"kind": "svc", "cfg": head, "ecu": "wild" if wild else "table", "trace_len": len(r["trace"])}))
-        ctx.nontrivial((head, _tokens(r["trace"])))
+        ctx.kind("svc:" + ("wild" if wild else "conformant") + ":" + label + (":sessions" if use_sessions else ":current")
+                 + (":check" if check else "") + (":reset" if reset is not None else "") + (":hooks" if hooks else ""))
+        if r["outcome"].startswith("raised"):
+            ctx.kind("svc:outcome:" + r["outcome"].split()[1])
+        if r["aborts"]:
+            ctx.kind("svc:session-check-failed")
+        inert_run = not wild and label in ("plain", "pending")
         # --- spec verdict on the ground truth (conformant ECUs, run completed) ---
-        if not wild and r["outcome"] in ("exit0", "exit1"):
-            _svc_spec(ctx, ecu, sessions, skip, check, rid, r, head)
-        elif not wild:
+        if inert_run and r["outcome"] in ("exit0", "exit1"):
+            _svc_spec(ctx, ecu, sessions, skip, check, rid, reset, r, head)
+        elif inert_run and not _may_die(ecu, reset, r):
             ctx.disagree("svc:scan-died:" + r["outcome"].split()[-1], f"service scan ended with {r['outcome']} on a conformant ECU (session read mode {ecu.f186}); nothing is reported",
                          {"cfg": head, "f186": ecu.f186}, impl=r["outcome"], spec_violated=True, site="ServicesScanner.main / ECU.check_and_set_session")
+        if not wild and label in ("drop-sid", "refuse", "drop-count") and r["outcome"] in ("exit0", "exit1"):
+            _svc_checked_spec(ctx, ecu, sessions, skip, check, rid, r, head)
+        if r["outcome"] in ("exit0", "exit1", "raised MissingResponse", "raised IllegalResponse",
+                            "raised UnexpectedNegativeResponse", "raised RuntimeError"):
+            _svc_wire_spec(ctx, ecu, sessions, skip, rid, reset, hooks, r, head)
+        if not rid:
+            for (k_, sid_) in sc.result:
+                if sid_ & 0x40:
+                    ctx.disagree("svc:response-id-reported-unasked", f"service id {sid_:#x} carries the response flag (bit 0x40) and --scan-response-ids is off, "
+                                 f"yet it is reported (session key {k_:#x})", {"cfg": head, "sid": sid_, "session": k_}, impl=sc.result,
+                                 spec_violated=True, site="ServicesScanner.perform_scan (response id filter)")
+                    break
+        # --- metamorphic pairs on conformant, stable ECUs ---
+        if inert_run and use_sessions and r["outcome"] in ("exit0", "exit1") and i % 3 == 0:
+            def twin():
+                e2 = TableEcu(_random.Random(ecu_seed), wild=False, flat=flat, n_sessions=n_sess)
+                e2.f186 = ecu.f186
+                return e2
+            base = sorted(sc.result)
+            if ecu.flat and label == "plain":
+                # reset on/off: same reported set when every session can be entered from every session and reset is answered
+                e2 = twin()
+                lvl2 = None
+                if reset is None:
+                    lvl2 = 1
+                    e2.reset_mode, e2.reset_levels, e2.boot = rng.choice(["ok", "neg", "silent"]), {1}, rng.choice([[], ["t"] * 2, ["i"]])
+                r2, head2, _ = svc_case(e2, sessions, skip, check, rid, lvl2, hooks, "table:twin-reset", skip_arg)
+                ctx.kind("svc:pair:reset-on/off")
+                if r2["outcome"] in ("exit0", "exit1") and ecu.reset_mode not in ("garbage",) and sorted(r2["scanner"].result) != base:
+                    ctx.disagree("svc:reset-changes-reported-set", "the same ECU and configuration with and without --reset give different reported sets "
+                                 "although every session can be entered from every session",
+                                 {"cfg": head, "cfg2": head2}, impl=sorted(r2["scanner"].result), model=base, spec_violated=True,
+                                 site="ServicesScanner.main (--reset)")
+            if ecu.f186 in ("ok", "nrc31", "nrc11", "nrc7f", "nrc12", "nrc7e", "silent"):
+                # check-session on/off: a session-stable ECU with an honest (or unsupported) read-back gives the same result
+                e2 = twin()
+                e2.reset_mode, e2.reset_levels, e2.boot = ecu.reset_mode, set(ecu.reset_levels), list(ecu.boot)
+                if label == "pending":
+                    pass
+                r2, head2, _ = svc_case(e2, sessions, skip, not check, rid, reset, hooks, "table:twin-check", skip_arg)
+                ctx.kind("svc:pair:check-on/off")
+                if label == "plain" and r2["outcome"] in ("exit0", "exit1") and \
+                        (sorted(r2["scanner"].result), r2["outcome"]) != (base, r["outcome"]):
+                    ctx.disagree("svc:check-session-changes-result", "a session-stable ECU with an honest session read-back is reported differently "
+                                 "with and without --check-session",
+                                 {"cfg": head, "cfg2": head2}, impl=[sorted(r2["scanner"].result), r2["outcome"]], model=[base, r["outcome"]],
+                                 spec_violated=True, site="ServicesScanner.perform_scan / ECU.check_and_set_session")
+            if label == "plain":
+                # ResponsePending in front of every reply changes nothing (fewer than MAX_N_PENDING frames)
+                e2 = twin()
+                e2.reset_mode, e2.reset_levels, e2.boot = ecu.reset_mode, set(ecu.reset_levels), list(ecu.boot)
+                e2.pending, e2.pending_ks = 1.0, [1, 2, 3, 119]
+                r2, head2, _ = svc_case(e2, sessions, skip, check, rid, reset, hooks, "table:twin-pending", skip_arg)
+                ctx.kind("svc:pair:pending-on/off")
+                if (sorted(r2["scanner"].result), r2["outcome"], r2["wire"]) != (base, r["outcome"], r["wire"]):
+                    ctx.disagree("svc:response-pending-changes-scan", "ResponsePending frames in front of the same replies change the scan "
+                                 "(result, exit status or the requests on the wire)",
+                                 {"cfg": head}, impl=[sorted(r2["scanner"].result), r2["outcome"], len(r2["wire"])],
+                                 model=[base, r["outcome"], len(r["wire"])], spec_violated=True, site="UDSClient.request_unsafe / ServicesScanner")
         if i < 2:
             ctx.sample({"case": head, "ecu_sessions": ecu.sessions, "result": sc.result, "outcome": r["outcome"],
-                        "exchanges": len(r["trace"])})
+                        "transmissions": len(r["wire"])})
 
     # real RandomUDSServer as ECU
-    for i in range(ctx.pick(20, 120)):
+    for i in range(ctx.pick(24, 140)):
         srv, fn = _random_server(rng)
         sess_avail = sorted(srv.services.keys())
         sessions = sorted(set(rng.sample(sess_avail, rng.randint(1, min(3, len(sess_avail)))))) if rng.random() < 0.8 else None
         rid = rng.random() < 0.3
         check = sessions is not None and rng.random() < 0.5
-        cfg = ServicesScannerConfig(target="tcp-lines://127.0.0.1:1", sessions=sessions, skip={}, check_session=check,
-                                    scan_response_ids=rid, db=None)
-        r = _run_scanner(ServicesScanner, cfg, fn)
-        ctx.ev()
-        ctx.kind("svc:RandomUDSServer")
-        head = f"svc {_fmt_sessions(sessions)} {int(check)} {int(rid)} -"
-        cases.append((head + " | " + _tokens(r["trace"]), _svc_summary(r), {"kind": "svc", "cfg": head, "ecu": "RandomUDSServer"}))
-        ctx.nontrivial((head, _tokens(r["trace"])))
+        reset = rng.choice([None, 1, 1, 2]) if sessions is not None else None
+        r, head, impl = svc_case(fn, sessions, {}, check, rid, reset, {}, "RandomUDSServer")
+        ctx.kind("svc:RandomUDSServer" + (":check" if check else "") + (":reset" if reset is not None else ""))
+        _svc_wire_spec(ctx, None, sessions, {}, rid, reset, {}, r, head)
         # soundness against the server's own service table
         if r["outcome"] in ("exit0", "exit1"):
             for (sess, sid) in r["scanner"].result:
                 eff = sess if sessions is not None else 1
                 if sid not in srv.services.get(eff, {}):
-                    ctx.disagree(f"svc:reported-unsupported:RandomUDSServer", f"service scan reports sid {sid:#x} in session {eff:#x} which the server does not implement there",
+                    ctx.disagree("svc:reported-unsupported:RandomUDSServer", f"service scan reports sid {sid:#x} in session {eff:#x} which the server does not implement there",
                                  {"cfg": head}, impl=r["scanner"].result, spec_violated=True, site="ServicesScanner.perform_scan")
 
     # ------------------------------------------------------------------ identifier scan
     captured = []
     idmod.logger.result = lambda msg, *a, **k: captured.append(str(msg))
     idmod.logger.notice = lambda *a, **k: None
-    n_id = ctx.pick(300, 1800)
+    n_id = ctx.pick(360, 2000)
+    id_modes = ["plain", "plain", "plain", "drop-count", "refuse", "pending", "busy", "drop-sid"]
+    n_id_forced = ctx.pick(24, 80)
     for i in range(n_id):
-        wild = rng.random() < 0.3
-        ecu = TableEcu(rng, wild=wild)
+        forced = i % 4 if i < n_id_forced else None   # combinations in which the session check has work to do
+        wild = rng.random() < 0.3 and forced is None
+        ecu = TableEcu(_random.Random(rng.randrange(1 << 60)), wild=wild, flat=rng.random() < 0.3 or forced is not None,
+                       n_sessions=None if forced is None else rng.randint(1, 3))
         service = rng.choice([0x22, 0x27, 0x2E, 0x31])
         # make the service available in most sessions so that something is counted
         for s in ecu.sessions:
             if rng.random() < 0.8:
                 ecu.svc[s][service] = (1, 0x31, False)
-        use_sessions = rng.random() < 0.7
+        use_sessions = rng.random() < 0.7 or forced is not None
         sessions = None
         if use_sessions:
             pool = ecu.sessions + rng.sample(range(2, 0x7F), 1)
             sessions = sorted(set(rng.sample(pool, rng.randint(1, min(3, len(pool))))))
+            if forced is not None:
+                sessions = sorted(set(sessions) | set(ecu.sessions[1:]))
         start = rng.choice([0, 0, 1, 5, 0x70, rng.randrange(0, 40)])
         end = start + rng.choice([0, 1, 7, 20, 47]) if rng.random() < 0.9 else max(0, start - 1)
         if service == 0x27 and rng.random() < 0.3:
@@ -378,6 +695,23 @@ def run(ctx):
                 skip[s] = None if rng.random() < 0.2 else sorted(set(rng.sample(range(start, max(start + 1, end + 2)), min(3, max(1, end - start)))))
         check = rng.choice([None, None, 1, 2, 5]) if use_sessions else rng.choice([None, 1])
         sns = rng.random() < 0.3
+        mode = rng.choice(id_modes) if use_sessions else rng.choice(["plain", "pending", "busy"])
+        if forced is not None:
+            mode = ["drop-sid", "drop-sid", "refuse", "pending"][forced]
+            check = [1, 1, rng.choice([1, 2]), rng.choice([None, 1])][forced]
+            ecu.f186 = "ok"
+            skip = {}
+        if mode == "drop-sid":
+            ecu.drop_sids = {service}
+            ecu.drop_after = None
+            label = "drop-sid"
+        else:
+            label = _behaviour(rng, ecu, mode)
+        if use_sessions:
+            ecu.reset_mode = rng.choice(["ok", "ok", "ok", "neg", "stay", "silent", "garbage"])
+            ecu.boot = rng.choice([[], [], ["t"], ["i"] * 2, ["t"] * 9, ["t", "i"] * 6] + ([["t"] * 11, ["i"] * 20, ["t", "i"] * 7] if wild else []))
+        hooks = _hooks_setup(rng, list(sessions) + [1]) if use_sessions and rng.random() < 0.3 else {}
+        dflt = rng.choice([0, 1, 3])
         skip_arg = skip
         if skip and rng.random() < 0.7:
             skip_arg = _skip_tokens(rng, skip)
@@ -387,24 +721,32 @@ def run(ctx):
                                     payload=payload, service=UDSIsoServices(service), check_session=check, skip=skip_arg,
                                     skip_not_supported=sns, db=None, power_cycle_sleep=0)
         captured.clear()
-        r = _run_scanner(ScanIdentifiers, cfg, ecu)
+        r = _run_scanner(ScanIdentifiers, cfg, ecu, hooks=hooks, max_retry=dflt)
         ctx.ev()
-        ctx.kind(f"id:{service:#x}:" + ("wild" if wild else "conformant") + (":sessions" if use_sessions else ":current"))
+        ctx.kind(f"id:{service:#x}:" + ("wild" if wild else "conformant") + ":" + label + (":sessions" if use_sessions else ":current")
+                 + (":check" if check else "") + (":hooks" if hooks else ""))
         head = (f"id {_fmt_sessions(sessions)} {start} {end} {payload.hex() if payload else '-'} {service} "
-                f"{check if check is not None else 'none'} {_fmt_skip(skip)} {int(sns)}")
+                f"{check if check is not None else 'none'} {_fmt_skip(skip)} {int(sns)} {dflt} {_fmt_hooks(hooks)}")
         counts = _parse_counts(captured)
         impl = _id_summary(r, counts)
-        cases.append((head + " | " + _tokens(r["trace"]), impl, {"kind": "id", "cfg": head, "ecu": "wild" if wild else "table"}))
-        ctx.nontrivial((head, _tokens(r["trace"])))
+        for p in r["problems"]:
+            ctx.disagree("id:wire-accounting", "transmissions and exchanges of the real client do not line up: " + p,
+                         {"cfg": head}, impl=p, spec_violated=False, site="UDSClient.request_unsafe")
+        cases.append((head + " | " + _tokens(r), impl, {"kind": "id", "cfg": head, "ecu": ("wild" if wild else "table") + ":" + label}))
+        ctx.nontrivial((head, _tokens(r)))
+        if r["outcome"].startswith("raised"):
+            ctx.kind("id:outcome:" + r["outcome"].split()[1])
         # spec verdict: positives counted == positive replies the ECU really gave to the identifier probes
         if r["outcome"] in ("exit0", "exit1"):
             _id_spec(ctx, service, payload, r, counts, head)
             _id_skip_wire(ctx, service, sessions, skip, r, head)
-        elif not wild:
+        elif not wild and label in ("plain",) and ecu.reset_mode not in ("silent", "garbage") and not hooks:
             ctx.disagree("id:scan-died:" + r["outcome"].split()[-1], f"identifier scan ended with {r['outcome']} on a conformant ECU (session read mode {ecu.f186}); nothing is counted",
                          {"cfg": head, "f186": ecu.f186}, impl=r["outcome"], spec_violated=True, site="ScanIdentifiers.main / ECU.check_and_set_session")
+        if not wild and label == "drop-sid" and check == 1 and service != 0x22 and ecu.f186 == "ok" and r["outcome"] in ("exit0", "exit1") and sessions is not None:
+            _id_checked_spec(ctx, ecu, service, r, head)
         if i < 2:
-            ctx.sample({"case": head, "counts": counts, "outcome": r["outcome"], "exchanges": len(r["trace"])})
+            ctx.sample({"case": head, "counts": counts, "outcome": r["outcome"], "transmissions": len(r["wire"])})
 
     # identifier scan against the real RandomUDSServer
     for i in range(ctx.pick(20, 100)):
@@ -414,17 +756,18 @@ def run(ctx):
         sessions = sorted(set(rng.sample(sess_avail, rng.randint(1, min(2, len(sess_avail)))))) if rng.random() < 0.7 else None
         start = rng.choice([0, 1, 0xF180])
         end = start + rng.choice([3, 16, 40])
+        check = rng.choice([None, 1, 4]) if sessions is not None else None
         cfg = ScanIdentifiersConfig(target="tcp-lines://127.0.0.1:1", sessions=sessions, start=start, end=end, payload=None,
-                                    service=UDSIsoServices(service), check_session=None, skip={}, skip_not_supported=False,
+                                    service=UDSIsoServices(service), check_session=check, skip={}, skip_not_supported=False,
                                     db=None, power_cycle_sleep=0)
         captured.clear()
-        r = _run_scanner(ScanIdentifiers, cfg, fn)
+        r = _run_scanner(ScanIdentifiers, cfg, fn, max_retry=3)
         ctx.ev()
         ctx.kind(f"id:{service:#x}:RandomUDSServer")
-        head = f"id {_fmt_sessions(sessions)} {start} {end} - {service} none - 0"
+        head = f"id {_fmt_sessions(sessions)} {start} {end} - {service} {check if check is not None else 'none'} - 0 3 -"
         counts = _parse_counts(captured)
-        cases.append((head + " | " + _tokens(r["trace"]), _id_summary(r, counts), {"kind": "id", "cfg": head, "ecu": "RandomUDSServer"}))
-        ctx.nontrivial((head, _tokens(r["trace"])))
+        cases.append((head + " | " + _tokens(r), _id_summary(r, counts), {"kind": "id", "cfg": head, "ecu": "RandomUDSServer"}))
+        ctx.nontrivial((head, _tokens(r)))
         if r["outcome"] in ("exit0", "exit1"):
             _id_spec(ctx, service, None, r, counts, head)
 
@@ -439,23 +782,35 @@ def run(ctx):
                          {"line": line[:4000], "info": info}, impl=impl[:3000], model=mo_c[:3000], spec_violated=False,
                          site="ServicesScanner.main" if kind == "svc" else "ScanIdentifiers.main")
     ctx.traces_validated += len(cases)
+    ctx.notes["transmissions_compared"] = sum(len(c[0].split("|")[1].split()) for c in cases)
+
+
+def _may_die(ecu, reset, r):
+    """outcomes of a conformant ECU that legitimately end the scan with an exception: an unparsable reply to the reset"""
+    if reset is not None and ecu.reset_mode == "garbage" and r["outcome"] == "raised IllegalResponse":
+        return True
+    # MAX_N_PENDING ResponsePending frames in a row end the run with RuntimeError by design of the client
+    return ecu.pending and max(ecu.pending_ks) >= 120 and r["outcome"] == "raised RuntimeError"
 
 
 def _svc_summary(r):
     sc = r["scanner"]
+    tail = f"reqs={_reqs(r['wire'])} left=0"
     if r["outcome"].startswith("raised"):
-        return r["outcome"].split()[0] + " " + r["outcome"].split()[1]
+        return r["outcome"].split()[0] + " " + r["outcome"].split()[1] + " " + tail
     res = ",".join(f"{a}:{b}" for a, b in sc.result) or "-"
     clean = 1 if r["outcome"] == "exit0" else 0
-    return f"ok result={res} clean={clean} reqs={_reqs(r['trace'])} left=0"
+    ab = ",".join(f"{a}:{b}" for a, b in r["aborts"]) or "-"
+    return f"ok result={res} clean={clean} abort={ab} {tail}"
 
 
 def _id_summary(r, counts):
+    tail = f"reqs={_reqs(r['wire'])} left=0"
     if r["outcome"].startswith("raised"):
-        return r["outcome"]
+        return r["outcome"] + " " + tail
     per = ";".join(f"{p}/{a}/{t}" for (p, a, t) in counts) or "-"
     clean = 1 if r["outcome"] == "exit0" else 0
-    return f"ok per={per} clean={clean} reqs={_reqs(r['trace'])} left=0"
+    return f"ok per={per} clean={clean} {tail}"
 
 
 def _canon_model(mo):
@@ -495,24 +850,36 @@ def _parse_counts(captured):
     return counts
 
 
-def _svc_spec(ctx, ecu, sessions, skip, check, rid, r, head):
-    """the property evaluated on a conformant table ECU's ground truth"""
+def _is_probe(pdu):
+    return len(pdu) in (2, 3, 4, 6) and not any(pdu[1:])
+
+
+def _entered(ecu, sessions, skip, reset):
+    """(key, real session) for every requested, non-skipped session a session-stable table ECU lets the scanner enter:
+    follows the ECU's own transition table through the session list, with the effect of --reset in between"""
+    out = []
+    cur = 1
+    for s in sessions:
+        if s in skip and skip[s] is None:
+            continue
+        if s in ecu.trans.get(cur, ()) and s in ecu.sessions:
+            cur = s
+            out.append((s, s))
+            if reset is not None and reset in ecu.reset_levels and ecu.reset_mode in ("ok", "silent"):
+                cur = 1
+    return out
+
+
+def _svc_spec(ctx, ecu, sessions, skip, check, rid, reset, r, head):
+    """the property evaluated on a conformant, session-stable table ECU's ground truth"""
     sc = r["scanner"]
     got = set(sc.result)
-    # replay which sessions were entered: follow the ECU's own transition table
     expected = set()
-    probed_sessions = []
-    cur = 1
     if sessions is None:
         probed_sessions = [(0, 1)]
     else:
-        for s in sessions:
-            if s in skip and skip[s] is None:
-                continue
-            if s in ecu.trans.get(cur, ()) and s in ecu.sessions:
-                cur = s
-                probed_sessions.append((s, s))
-    aborted = r["outcome"] == "exit1" and check  # a failed session check may cut a session scan short
+        probed_sessions = _entered(ecu, sessions, skip, reset)
+    aborted = bool(r["aborts"])  # a failed session check may cut a session scan short
     for key, real in probed_sessions:
         for sid in range(256):
             if (sid & 0x40) and not rid:
@@ -537,33 +904,158 @@ def _svc_spec(ctx, ecu, sessions, skip, check, rid, r, head):
                              {"cfg": head, "sid": sid, "session": real}, impl=sorted(got), spec_violated=True, site="ServicesScanner.perform_scan")
             if sup and meaningful:
                 expected.add((key, sid))
+    for (key, sid) in got:
+        if key not in [k for k, _ in probed_sessions]:
+            ctx.disagree("svc:reported-under-session-not-entered", f"service scan reports sid {sid:#x} under session {key:#x}, which the ECU never let it enter",
+                         {"cfg": head, "sid": sid, "session": key}, impl=sorted(got), spec_violated=True, site="ServicesScanner.main")
     missing = expected - got
-    if missing and not aborted:
+    storm = ecu.pending and max(ecu.pending_ks) >= 120
+    # a hook request that is not answered makes set_session raise: the session is skipped by design
+    hook_failed = any(pdu in HOOK_PDUS and tok in ("t", "i", "s") for pdu, tok in r["trace"])
+    if missing and not aborted and not storm and not hook_failed:
         k, sid = sorted(missing)[0]
         ctx.disagree("svc:implemented-service-not-reported", f"service scan misses sid {sid:#x} (session key {k:#x}) although the ECU answers a probe meaningfully",
                      {"cfg": head, "missing": sorted(missing)[:10]}, impl=sorted(got), spec_violated=True, site="ServicesScanner.perform_scan")
-    # every probe happened in the session it claims: check the wire against the ECU's session at that time is implied by
-    # the ground-truth comparison above (answers are session dependent); skipped ids must never be on the wire
-    if sessions is not None:
+    if aborted and ecu.f186 != "stuck1":
+        ctx.disagree("svc:session-check-failed-on-stable-ecu", "the session check gave up although the ECU never left the session and reads it back correctly",
+                     {"cfg": head, "aborts": r["aborts"]}, impl=r["aborts"], spec_violated=True, site="ECU.check_and_set_session")
+    # every probe was received by the ECU in the session it is reported under
+    if sessions is not None and not hook_failed:
         key = None
-        for pdu, tok in r["trace"]:
-            if len(pdu) == 2 and pdu[0] == 0x10 and pdu[1] != 0:
-                if pdu[1] in skip and skip[pdu[1]] is None and pdu[1] != 1:
-                    ctx.disagree("svc:skipped-session-requested", f"session {pdu[1]:#x} is skipped as a whole but `{pdu.hex()}` was sent",
-                                 {"cfg": head, "request": pdu.hex()}, impl=_tokens(r["trace"])[:400], spec_violated=True,
-                                 site="ServicesScanner.main / Ranges2D (unravel_2d)")
-                    break
-                if tok.startswith("p"):
-                    key = pdu[1]  # positive session change: set_session / check_and_set_session / leave_session
+        main_dsc = _main_dsc_positions(ecu, sessions, skip)
+        for idx, (before, pdu, reply) in enumerate(ecu.log):
+            if idx in main_dsc:
+                key = main_dsc[idx]
                 continue
-            if key is None or key not in skip:
-                continue
-            is_probe = len(pdu) in (2, 3, 4, 6) and not any(pdu[1:]) and pdu[0] != 0x3E
-            if is_probe and (skip[key] is None or pdu[0] in skip[key]):
-                ctx.disagree("svc:skipped-sid-requested", f"service id {pdu[0]:#x} is skipped in session {key:#x} but the probe `{pdu.hex()}` was sent there",
-                             {"cfg": head, "session": key, "request": pdu.hex()}, impl=_tokens(r["trace"])[:400], spec_violated=True,
-                             site="ServicesScanner.perform_scan / Ranges2D (unravel_2d)")
+            if key is not None and _is_probe(pdu) and pdu[0] != 0x3E and before != key:
+                ctx.disagree("svc:probe-outside-claimed-session", f"probe `{pdu.hex()}` of the scan of session {key:#x} reached the ECU in session {before:#x}",
+                             {"cfg": head, "session": key, "request": pdu.hex()}, impl=before, model=key, spec_violated=True,
+                             site="ServicesScanner.main / perform_scan")
                 break
+
+
+def _main_dsc_positions(ecu, sessions, skip):
+    """index in the ECU log of the positive session change that starts the scan of each entered session -> session"""
+    pos = {}
+    todo = [s for s in sessions if not (s in skip and skip[s] is None)]
+    i = 0
+    for s in todo:
+        # the main loop's set_session(s) is the first `10 s` at or after position i that is not part of a session check of an
+        # earlier session; a negative / unanswered one means the session is skipped
+        while i < len(ecu.log):
+            before, pdu, reply = ecu.log[i]
+            i += 1
+            if pdu == bytes([0x10, s]):
+                if reply is not None and reply[0] == 0x50:
+                    pos[i - 1] = s
+                    # swallow re-entries of the same session by check_and_set_session: they keep the key
+                break
+    return pos
+
+
+def _svc_wire_spec(ctx, ecu, sessions, skip, rid, reset, hooks, r, head):
+    """what may be on the wire at all (every configuration, also runs that die): session changes into non-skipped requested
+    sessions, the read-back, probes of selected ids, the reset, pings, hook requests; never a session skipped as a whole,
+    never a probe of an id the skip option names for the session being scanned"""
+    key = None
+    hookset = {p for v in hooks.values() for part in v for p in part}
+    skip = skip if sessions is not None else {}
+    for pdu, tok in r["trace"]:
+        if _is_probe(pdu) and (pdu[0] & 0x40) and not rid and pdu not in hookset:
+            ctx.disagree("svc:response-id-probed-unasked", f"service id {pdu[0]:#x} carries the response flag (bit 0x40) and --scan-response-ids is off, "
+                         f"yet the probe `{pdu.hex()}` was sent", {"cfg": head, "request": pdu.hex()}, impl=_reqs(r["wire"])[:400],
+                         spec_violated=True, site="ServicesScanner.perform_scan (response id filter)")
+            return
+        if sessions is not None and len(pdu) == 2 and pdu[0] == 0x10 and pdu[1] != 0:
+            if pdu[1] in skip and skip[pdu[1]] is None and pdu[1] != 1:
+                ctx.disagree("svc:skipped-session-requested", f"session {pdu[1]:#x} is skipped as a whole but `{pdu.hex()}` was sent",
+                             {"cfg": head, "request": pdu.hex()}, impl=_reqs(r["wire"])[:400], spec_violated=True,
+                             site="ServicesScanner.main / Ranges2D (unravel_2d)")
+                return
+            if pdu[1] not in sessions:
+                ctx.disagree("svc:unrequested-session-requested", f"`{pdu.hex()}` was sent although session {pdu[1]:#x} is not in --sessions",
+                             {"cfg": head, "request": pdu.hex()}, impl=_reqs(r["wire"])[:400], spec_violated=True, site="ServicesScanner.main")
+                return
+            if tok.startswith("p"):
+                key = pdu[1]  # positive session change: set_session / check_and_set_session
+            continue
+        if pdu == b"\x22\xf1\x86" or pdu == b"\x3e\x00" or pdu in hookset:
+            continue
+        if reset is not None and pdu == bytes([0x11, reset]):
+            continue
+        if not (_is_probe(pdu) and (rid or not pdu[0] & 0x40)):
+            ctx.disagree("svc:unexpected-request", f"`{pdu.hex()}` is neither a probe of a selected service id nor session maintenance",
+                         {"cfg": head, "request": pdu.hex()}, impl=_reqs(r["wire"])[:400], spec_violated=True, site="ServicesScanner")
+            return
+        if key is None or key not in skip:
+            continue
+        if skip[key] is None or pdu[0] in skip[key]:
+            ctx.disagree("svc:skipped-sid-requested", f"service id {pdu[0]:#x} is skipped in session {key:#x} but the probe `{pdu.hex()}` was sent there",
+                         {"cfg": head, "session": key, "request": pdu.hex()}, impl=_reqs(r["wire"])[:400], spec_violated=True,
+                         site="ServicesScanner.perform_scan / Ranges2D (unravel_2d)")
+            return
+
+
+def _svc_checked_spec(ctx, ecu, sessions, skip, check, rid, r, head):
+    """ECUs that silently fall back to the default session.  With --check-session on and an honest read-back, whatever is
+    reported for a service id whose own probes do not make the ECU drop the session is implemented in the claimed session,
+    and the first probe of every service id reached the ECU in the claimed session; a failed check ends the session's scan
+    with exit status 1."""
+    if not check or ecu.f186 != "ok" or ecu.f186_then is not None or ecu.f186_nondefault is not None or sessions is None:
+        return
+    sc = r["scanner"]
+    got = set(sc.result)
+    if r["aborts"] and r["outcome"] != "exit1":
+        ctx.disagree("svc:failed-session-check-exit-status", "a session check failed but the scan ended with status 0",
+                     {"cfg": head, "aborts": r["aborts"]}, impl=r["outcome"], spec_violated=True, site="ServicesScanner.main")
+    # drops happen only in answer to requests of the listed service ids, and the read-back itself is not one of them
+    trigger_free = ecu.drop_after is None and 0x22 not in ecu.drop_sids
+    for (key, sid) in sorted(got):
+        if trigger_free and sid not in ecu.drop_sids and not ecu.supports(key, sid):
+            ctx.disagree("svc:checked-scan-reports-unsupported", f"--check-session is on, the read-back is honest, probes of {sid:#x} do not disturb the session, "
+                         f"yet it is reported under session {key:#x} where the ECU does not implement it",
+                         {"cfg": head, "sid": sid, "session": key, "drop_sids": sorted(ecu.drop_sids)}, impl=sorted(got), spec_violated=True,
+                         site="ServicesScanner.perform_scan / ECU.check_and_set_session")
+            return
+    # the first probe of every service id follows a read-back that confirmed the session
+    if not trigger_free or any(pdu in HOOK_PDUS and tok in ("t", "i", "s") for pdu, tok in r["trace"]):
+        return   # (a failed hook request makes set_session raise after the session change: which `10 k` started a scan is then not visible in the ECU's log)
+    key = None
+    main_dsc = _main_dsc_positions(ecu, sessions, skip)
+    prev = None
+    for idx, (before, pdu, reply) in enumerate(ecu.log):
+        if idx in main_dsc:
+            key = main_dsc[idx]
+        elif key is not None and _is_probe(pdu) and len(pdu) == 2 and pdu[0] != 0x3E and not (pdu[0] == 0x10):
+            if before != key and (prev is None or prev[1] == b"\x22\xf1\x86"):
+                ctx.disagree("svc:first-probe-outside-claimed-session", f"--check-session is on, yet the first probe `{pdu.hex()}` of the scan of session {key:#x} "
+                             f"reached the ECU in session {before:#x}",
+                             {"cfg": head, "session": key, "request": pdu.hex()}, impl=before, model=key, spec_violated=True,
+                             site="ECU.check_and_set_session")
+                return
+        prev = (before, pdu, reply)
+
+
+def _id_checked_spec(ctx, ecu, service, r, head):
+    """identifier scan, check-session for every identifier, ECU drops the session after every request of the scanned service:
+    the first transmission of every identifier probe still reaches the ECU in the session being scanned (or the scan of the
+    session is given up); retransmissions of an unanswered probe follow without a new check"""
+    key = None
+    prev = None
+    for before, pdu, reply in ecu.log:
+        retransmission = pdu == prev
+        prev = pdu
+        if len(pdu) == 2 and pdu[0] == 0x10:
+            if reply is not None and reply[0] == 0x50:
+                key = pdu[1]
+            continue
+        if retransmission or pdu in HOOK_PDUS:
+            continue
+        if pdu[0] == service and pdu != b"\x22\xf1\x86" and key not in (None, 1) and before != key:
+            ctx.disagree("id:probe-outside-claimed-session", f"--check-session 1 is on, yet `{pdu.hex()}` of the scan of session {key:#x} reached the ECU in session {before:#x}",
+                         {"cfg": head, "session": key, "request": pdu.hex()}, impl=before, model=key, spec_violated=True,
+                         site="ScanIdentifiers.perform_scan / ECU.check_and_set_session")
+            return
 
 
 def _id_skip_wire(ctx, service, sessions, skip, r, head):
@@ -575,7 +1067,7 @@ def _id_skip_wire(ctx, service, sessions, skip, r, head):
         if len(pdu) == 2 and pdu[0] == 0x10 and pdu[1] != 0:
             if pdu[1] in skip and skip[pdu[1]] is None and pdu[1] != 1:
                 ctx.disagree("id:skipped-session-requested", f"session {pdu[1]:#x} is skipped as a whole but `{pdu.hex()}` was sent",
-                             {"cfg": head, "request": pdu.hex()}, impl=_tokens(r["trace"])[:400], spec_violated=True,
+                             {"cfg": head, "request": pdu.hex()}, impl=_reqs(r["wire"])[:400], spec_violated=True,
                              site="ScanIdentifiers.main / Ranges2D (unravel_2d)")
                 return
             if tok.startswith("p"):
@@ -590,31 +1082,25 @@ def _id_skip_wire(ctx, service, sessions, skip, r, head):
             ident = int.from_bytes(pdu[2:4], "big")
         if ident is not None and (skip[key] is None or ident in skip[key]):
             ctx.disagree("id:skipped-identifier-requested", f"identifier {ident:#x} is skipped in session {key:#x} but `{pdu.hex()}` was sent there",
-                         {"cfg": head, "session": key, "request": pdu.hex()}, impl=_tokens(r["trace"])[:400], spec_violated=True,
+                         {"cfg": head, "session": key, "request": pdu.hex()}, impl=_reqs(r["wire"])[:400], spec_violated=True,
                          site="ScanIdentifiers.perform_scan / Ranges2D (unravel_2d)")
             return
 
 
 def _id_spec(ctx, service, payload, r, counts, head):
     """positives counted == number of identifier probes the ECU answered positively (read off the exchange trace)"""
-    pos = 0
-    per = []
-    in_scan = False
-    for pdu, tok in r["trace"]:
-        is_probe = pdu[0] == service and not (service == 0x22 and pdu == b"\x22\xf1\x86" and False)
-        if pdu[0] == 0x10 and len(pdu) == 2:
-            if in_scan:
-                per.append(pos)
-            pos = 0
-            in_scan = tok.startswith("p") and pdu[1] != 1 or (tok.startswith("p") and not in_scan)
-            continue
-        if pdu[0] == service and pdu != b"\x22\xf1\x86" and tok.startswith("p"):
-            pos += 1
     total_expected = sum(1 for pdu, tok in r["trace"] if pdu[0] == service and tok.startswith("p")
                          and not (pdu == b"\x22\xf1\x86"))
     total_counted = sum(c[0] or 0 for c in counts)
     # a 0x22 scan whose range contains 0xF186 makes probe and session check indistinguishable on the wire: skip those
     if service == 0x22 and any(pdu == b"\x22\xf1\x86" for pdu, _ in r["trace"]):
+        return
+    # counters of a session whose scan was given up are not logged
+    if r["outcome"] == "exit1":
+        if total_counted > total_expected:
+            ctx.disagree("id:positive-count-exceeds-positive-replies",
+                         f"identifier scan counted {total_counted} positive identifiers but the ECU gave only {total_expected} positive replies",
+                         {"cfg": head}, impl=counts, model=total_expected, spec_violated=True, site="ScanIdentifiers.perform_scan")
         return
     if total_expected != total_counted:
         ctx.disagree("id:positive-count-differs-from-positive-replies",
@@ -643,16 +1129,29 @@ def _random_server(rng):
 
 
 MANIFEST = {
-    "level_text": ("Lean 4 theorems over an executable model of ServicesScanner.main / ScanIdentifiers.main (probe loop, skip map, "
-                   "session loop, check_and_set_session, leave_session) for every ECU given as a step function: reported services are "
-                   "implemented in the claimed session and implemented services answering a probe meaningfully are reported (for "
-                   "session-determined ECUs obeying the ISO default rule), skipped ids are never requested, every selected id is probed, "
-                   "the positive counter equals the number of positive replies to exactly the PDUs of the requested range. Tied to the "
-                   "code by replaying the real scanners' exchange traces (table ECUs, wild ECUs, the real RandomUDSServer) through the "
-                   "model and by evaluating the property on the ECUs' ground truth."),
-    "level_note": ("Trusted: Lean kernel, the harness (exchange recorder around ECU._request, table ECU generator), the real UDSClient as "
-                   "the producer of outcome classes. Configuration domain: no --reset, no database, no power supply. wait_for_ecu's wall-clock "
-                   "limit is modelled as a ping budget."),
-    "technique": "Lean 4 proof (structural induction over probe / identifier lists, invariants on the ECU session) + trace-replay correspondence against the real scanners",
+    "level_text": ("Lean 4 theorems over an executable model of ServicesScanner.main / ScanIdentifiers.main for every configuration "
+                   "(probe loop, skip map, session loop, --check-session with ECU.check_and_set_session incl. the 22 F1 86 read-back and the "
+                   "re-entry loop, --reset with ECUReset + wait_for_ecu, ECU.set_session with its pre/post hooks, leave_session, the client's "
+                   "retry / busyRepeatRequest / ResponsePending loop underneath), for every ECU given as a step function. For any ECU with a "
+                   "request log: only probes of selected ids and session maintenance are ever sent (also in runs that are given up or die), "
+                   "every selected id is probed, skipped ids and wholly skipped sessions are never requested, the number of requests is bounded. "
+                   "For session-determined ECUs obeying the ISO default rule: reported <=> selected, implemented in the claimed session and "
+                   "answering a probe meaningfully (sound for every configuration, exact when the read-back is honest), --reset does not change "
+                   "the reported set, identifier counters equal the number of positive identifiers per entered session. For ECUs that lose the "
+                   "session silently and read it back honestly: a passed session check establishes the session, first probes (and all probes of "
+                   "ids that do not disturb the session) reach the ECU in the claimed session, findings for such ids are implemented there, a "
+                   "lost session gets nothing reported, a failed check gives exit status 1. ResponsePending below MAX_N_PENDING is transparent. "
+                   "Tied to the code per single transmission: the real scanners run on a real ECU client over wire-level ECUs (table ECUs with "
+                   "session drops, refused / faked re-entry, ResponsePending, busyRepeatRequest, reset / boot variants, hooks; wild ECUs; the real "
+                   "RandomUDSServer); the model must put the same transmissions on the wire in the same order and report the same result; the "
+                   "property is evaluated on the ECUs' ground truth; metamorphic pairs (reset, check-session, ResponsePending on/off)."),
+    "level_note": ("Trusted: Lean kernel, the harness (wire transport, exchange recorder around ECU._request, table ECU generator), the real "
+                   "UDSClient's matcher as the classifier of final messages (C03). Literal limits (retries, max_retry per call site, MAX_N_PENDING, "
+                   "wait_for_ecu durations, leave_session levels) are regenerated from the AST and tied by limits_agree. Outside: database-assisted "
+                   "session changes, power supply, connection loss (C08), ResponsePending followed by silence in answer to a ping of wait_for_ecu; "
+                   "max_retry per call site is given to the model as a function of the request bytes."),
+    "technique": ("Lean 4 proof (frame lemmas: every state predicate preserved by the allowed requests is preserved by the scanner; structural "
+                  "induction over service-id / identifier / session lists; invariants on the ECU session; request-log abstraction shared by the "
+                  "exchange and the transmission level) + per-transmission trace-replay correspondence against the real scanners + regenerated limits"),
     "design_ref": "DESIGN.md section 7, C10",
 }
